@@ -1,3 +1,4 @@
+import RsyncModel.PeerInput
 import RsyncModel.RecvTie
 import RsyncModel.MapFile
 import RsyncModel.PureTie
@@ -169,5 +170,20 @@ theorem source_receiver_loop_no_panic (h : PureTie.Head32) (hok : h.ok) (cs : Na
   cases Recv.recvTokens (h.toHead cs) (if hasBasis then some basis else none) inp acc with
   | error e => simp
   | ok v => simp
+
+
+/-- **the readers of peer-supplied lists as the source has them never panic and always end**
+(`recvIdMapping1`: the uid/gid name lists a sender transmits; `RecvFilterList`: the filter rules a
+client transmits — both translated from /repo on every run with the connection's input as a byte
+list): for every input a value or an error; a negative or oversized rule length is rejected before
+anything is allocated; the loops are over within `len(input)+1` passes -/
+theorem source_list_readers_total (inp : Wire.Bytes) (out : List Go.Out) :
+    Gen.Pure.recvIdLoop inp out ≠ .panic ∧ Gen.Pure.recvFilterLoop inp out ≠ .panic :=
+  ⟨PeerInput.recvIdLoop_no_panic inp out, PeerInput.recvFilterLoop_no_panic inp out⟩
+
+/-- **`MultiplexReader.ReadMsg` as the source has it** returns a frame or an error for every input,
+never panics; a declared length above `maxMessageSize` is an error before anything is allocated -/
+theorem source_read_msg_total (inp : Wire.Bytes) : Gen.Pure.ReadMsg inp ≠ .panic :=
+  PeerInput.readMsg_no_panic inp
 
 end C08
